@@ -89,6 +89,9 @@ def gen_case(rng, tier, index):
         # what the handler returns: only a boolean event may be cut short (by False), only a relay event is
         # updated (by a dict); for every other combination the result must not influence the dispatch
         rets.append(rng.choice(["none"] * 7 + ["false", "true", "zero", "dict"]))
+    # some handler functions carry a relative priority (mpf's @event_handler(N) decorator): it is added to the
+    # priority given at registration
+    relprios = [rng.choice([0, 0, 0, 0, 1, 2, 10]) for _ in range(nfn)]
     regs = []
     for _ in range(rng.randint(3, 18)):
         regs.append([rng.randrange(nfn), rng.choice(EVENTS), rng.choice(PRIOS), _kw(rng), rng.choice(CONDS),
@@ -100,7 +103,7 @@ def gen_case(rng, tier, index):
                   rng.random() < 0.5] for _ in range(rng.choice([1, 1, 2, 3]))]
         acts = [_gen_action(rng, nfn) for _ in range(rng.choice([0, 0, 1]))]
         roots.append([ctx, rng.choice([0, 0, 0.05, 1.0]), posts, acts])
-    return {"fns": fns, "regs": regs, "roots": roots, "rets": rets}
+    return {"fns": fns, "regs": regs, "roots": roots, "rets": rets, "relprios": relprios}
 
 
 def run_case(case):
@@ -139,7 +142,7 @@ def run_case(case):
             kw = dict(kwargs)
             kw["_rid"] = rid
             name = event
-            eff_prio = prio
+            eff_prio = prio + ((case.get("relprios") or [])[fid] if fid < len(case.get("relprios") or []) else 0)
             if dotprio:
                 name += ".3"
                 eff_prio += 3
@@ -207,6 +210,9 @@ def run_case(case):
                 chk.on_exit(rid, pid, result)
                 return result
             fn.__name__ = "F%d" % fid
+            rel = (case.get("relprios") or [])[fid] if fid < len(case.get("relprios") or []) else 0
+            if rel:
+                fn.relative_priority = rel
             return fn
 
         def make_cb(pid):
